@@ -74,4 +74,14 @@ theorem C06_go2lean_sliceBool_marshal (b vals : List Nat) (hv : ∀ x ∈ vals, 
     Go.protomarshal.Value_MarshalAppend_sliceBool b vals =
       some { b := b ++ vals.map boolByte, ret := some (b ++ vals.map boolByte) } := pm_sliceBool_marshal b vals hv
 
+/-! `Value.MarshalAppend`: the unsigned fixed-width array cases. PROPERTY THEOREMS (audited by ./check): C06_go2lean_sliceUint_marshal -/
+
+theorem C06_go2lean_sliceUint_marshal (arch : Nat) (b vals : List Nat) :
+    Go.protomarshal.Value_MarshalAppend_sliceUint16 arch b vals =
+      some { b := b ++ vals.flatMap (enc 2 arch), ret := some (b ++ vals.flatMap (enc 2 arch)) } ∧
+    Go.protomarshal.Value_MarshalAppend_sliceUint32 arch b vals =
+      some { b := b ++ vals.flatMap (enc 4 arch), ret := some (b ++ vals.flatMap (enc 4 arch)) } ∧
+    Go.protomarshal.Value_MarshalAppend_sliceUint64 arch b vals =
+      some { b := b ++ vals.flatMap (enc 8 arch), ret := some (b ++ vals.flatMap (enc 8 arch)) } := pm_sliceUint_marshal arch b vals
+
 end Fit.C06
